@@ -19,6 +19,13 @@ for c in ids:
     cov = coverage.Coverage(data_file=os.path.join(d, "combined"), config_file=False, branch=True)
     cov.combine([os.path.join(d, f) for f in os.listdir(d) if f.startswith("c.")], keep=False)
     cov.save()
+# lines executed at import time are run in the warm parent, not in a traced child: record them from a fresh interpreter
+imp = os.path.join(root, "import", "combined")
+os.makedirs(os.path.dirname(imp), exist_ok=True)
+subprocess.run(["/venv/bin/python", "-c", (
+    "import coverage,sys; sys.path.insert(0,'/repo/src'); c=coverage.Coverage(data_file=%r, config_file=False, branch=True, include=['/repo/src/inline_snapshot/*']); c.start();"
+    "import pkgutil, importlib, inline_snapshot; [importlib.import_module(m.name) for m in pkgutil.walk_packages(inline_snapshot.__path__, 'inline_snapshot.')];"
+    "c.stop(); c.save()") % imp], check=True, cwd="/tmp")
 allc = coverage.Coverage(data_file=os.path.join(root, "all"), config_file=False, branch=True)
 allc.combine([os.path.join(root, c, "combined") for c in os.listdir(root) if os.path.exists(os.path.join(root, c, "combined"))], keep=True)
 allc.save()
